@@ -424,7 +424,8 @@ fn case_cprune(r: &mut Rng, id: usize, out: &mut String) {
 /// forwarded).  `partial_pct`: probability (in 1/100) that a child slot stays empty.
 fn gen_axis_tree4(r: &mut Rng, n: usize, depth: usize, partial_pct: u32, term: &mut dyn FnMut(&mut Rng) -> AffFunc) -> AffTree<4> {
     fn axis_dec(r: &mut Rng, n: usize) -> (AffFunc, usize) {
-        let rows = 1 + r.below(2);
+        // mostly two rows: only then can a slot be empty although its region is not
+        let rows = if r.chance(1, 4) { 1 } else { 2 };
         let mut a = Array2::<f64>::zeros((rows, n));
         let mut b = Array1::<f64>::zeros(rows);
         for i in 0..rows {
@@ -517,7 +518,7 @@ fn plant_states4(r: &mut Rng, t: &mut AffTree<4>) {
 /// slots 2, 3 empty); the argument tree is partial quite often: an empty slot must stay undefined, whatever is pruned
 /// around it
 fn case_kcprune(r: &mut Rng, id: usize, out: &mut String) {
-    let targeted = r.chance(1, 2);
+    let targeted = r.chance(2, 3);
     let n = 1 + r.below(2);
     let (mut f, g): (AffTree<4>, AffTree<4>) = if targeted {
         // receiver: axis decisions, identity terminals (the thresholds of g meet the path bounds of f)
@@ -527,7 +528,7 @@ fn case_kcprune(r: &mut Rng, id: usize, out: &mut String) {
         let f = gen_axis_tree4(r, n, fdepth, fp, &mut ident);
         let k = 1 + r.below(2);
         let mut term = |r: &mut Rng| gen_aff(r, k, n, 4);
-        let gp = [0, 0, 25, 50][r.below(4)];
+        let gp = [0, 25, 50, 50][r.below(4)];
         let gdepth = 1 + r.below(2);
         (f, gen_axis_tree4(r, n, gdepth, gp, &mut term))
     } else {
